@@ -16,9 +16,7 @@ pub trait CosmosRouter<ExecC, QueryC> {
         ensures (r, final(storage).view()) == self.exec_sem(old(storage).view(), *block, sender, msg);
     fn query(&self, api: &dyn Api, storage: &dyn Storage, block: &BlockInfo, request: QueryRequest<QueryC>) -> (r: AnyResult<Binary>)
         ensures r == self.query_sem(storage.view(), *block, request);
-    // SudoMsg::Custom is not supported by the simulator (unimplemented!() by design): excluded by precondition
     fn sudo(&self, api: &dyn Api, storage: &mut dyn Storage, block: &BlockInfo, msg: SudoMsg) -> (r: AnyResult<AppResponse>)
-        requires !(msg is Custom)
         ensures (r, final(storage).view()) == self.sudo_sem(old(storage).view(), *block, msg);
 }
 
